@@ -183,18 +183,6 @@ def n_regex_after_funcdecl(ref, src):
     return n
 
 
-def n_diveq_regex_after_backtrack_token(ref, src):
-    """regex literal beginning with `/=` after `}`, `++` or `--` (only `/` is back-tracked)"""
-    n = 0
-    toks = ref.tokens
-    for i, k in enumerate(toks):
-        if k.type == 'regex' and k.text.startswith('/=') and i and toks[i - 1].type == 'punct' \
-                and toks[i - 1].text in ('}', '++', '--'):
-            src.toks[i] = '/x' + k.text[1:]
-            n += 1
-    return n
-
-
 def n_asi_before_prefix_incdec(ref, src):
     """semicolon inserted (by a line break) before a prefix ++/-- that follows the `}` of an object
     literal or function expression (the other operand ends were fixed in 2093a2f)"""
@@ -243,7 +231,6 @@ NEUTRALISERS = [
     ('c04.reserved_prop_restricted_lt', n_reserved_prop_restricted_lt),
     ('c05.header_paren_markers', n_header_markers),
     ('c05.regex_after_funcdecl', n_regex_after_funcdecl),
-    ('c05.diveq_regex_after_brace_or_incdec', n_diveq_regex_after_backtrack_token),
     ('c04.asi_before_prefix_incdec', n_asi_before_prefix_incdec),
     ('c04.asi_before_regex', n_asi_before_regex),
     ('c03.ident_unicode_escape', n_ident_escape),
